@@ -568,3 +568,47 @@ def run_property(spec, tier, seed, replay=None):
     for fn in spec.get("post", []):
         fn(ctx)
     return finish(ctx)
+
+
+def setup_all(specs):
+    """Build only what the claimed checks need: Coq targets (Props + Extract closure), OCaml drivers, harness bins."""
+    err = coq_makefile()
+    if err:
+        print(err)
+        return 1
+    targets, models, bins = [], [], []
+    for sp in specs:
+        c = sp.get("coq", {})
+        pl = c.get("props", [])
+        pl = pl if isinstance(pl, list) else [pl]
+        for f in pl + c.get("extract", []):
+            t = f[:-2] + ".vo"
+            if t not in targets:
+                targets.append(t)
+        for st in sp.get("stages", []):
+            if st.get("model") and st["model"] not in models:
+                models.append(st["model"])
+            key = (st["bin"], st.get("features"), st.get("release", False))
+            if key not in bins:
+                bins.append(key)
+    os.makedirs(os.path.join(OCAML, "gen"), exist_ok=True)
+    rc, out = sh("timeout 7000 make -j16 %s" % " ".join(targets), cwd=COQ, timeout=7100)
+    if rc != 0:
+        print(out[-4000:])
+        return 1
+    for m in models:
+        rc, out = sh("timeout 900 ./build.sh %s" % m, cwd=OCAML, timeout=1000)
+        if rc != 0:
+            print(out[-3000:])
+            return 1
+
+    class _C:
+        problems = []
+    for b, feats, rel in bins:
+        c = _C()
+        c.problems = []
+        if not cargo_build(c, b, feats, rel):
+            print(c.problems[0].detail.get("log", "")[-3000:])
+            return 1
+    print("setup ok: %d coq targets, %d model drivers, %d harness bins" % (len(targets), len(models), len(bins)))
+    return 0
